@@ -1193,7 +1193,7 @@ def _sweep_bases():
     }
 
 
-def gate_sweep(tier, rng, fam, sample=None, only=None, gates=None):
+def gate_sweep(tier, rng, fam, sample=None, only=None, gates=None, must=()):
     """systematic schedules: every base conversation x every instrumented window x every (arm, release)
     position - the first goroutine to reach the window after step i is held there until after step j while
     everything else runs to quiescence; at the end nothing is pending, registered or running"""
@@ -1219,7 +1219,9 @@ def gate_sweep(tier, rng, fam, sample=None, only=None, gates=None):
                     b.step('ucall', c=9, pay='probe', hp=[ret(pay='fine')])
                     out.append(b.q().done())
     if sample and len(out) > sample:
-        out = rng.sample(out, sample)
+        keep = [x for x in out if any(m in x['tag'] for m in must)]      # schedules every run includes
+        rest = [x for x in out if not any(m in x['tag'] for m in must)]
+        out = keep + rng.sample(rest, max(0, min(len(rest), sample - len(keep))))
     return out
 
 
@@ -1234,12 +1236,14 @@ def sweep_c11(tier, rng, fam='C11'):
 def sweep_c02(tier, rng, fam='C02'):
     # how a stream ends for its caller when one of the caller's own operations is held in a window while the stream finishes
     return gate_sweep(tier, rng, fam, sample=90 if tier == 'quick' else None, only=('echo', 'earlyok', 'ss', 'cs'),
-                      gates=('cs.send.window', 'cs.recv.window', 'cs.read.window', 'srv.stream.exit', 'srv.writer.window'))
+                      gates=('cs.send.window', 'cs.recv.window', 'cs.read.window', 'srv.stream.exit', 'srv.writer.window'),
+                      must=('sweep earlyok: cs.send.window',))
 
 
 def sweep_c03(tier, rng, fam='C03'):
     return gate_sweep(tier, rng, fam, sample=90 if tier == 'quick' else None, only=('herr', 'earlyok', 'unary'),
-                      gates=('cs.send.window', 'cs.recv.window', 'cs.read.window', 'mux.await.window', 'srv.stream.exit', 'srv.writer.window'))
+                      gates=('cs.send.window', 'cs.recv.window', 'cs.read.window', 'mux.await.window', 'srv.stream.exit', 'srv.writer.window'),
+                      must=('sweep herr: cs.send.window', 'sweep earlyok: cs.send.window'))
 
 
 def sweep_c07(tier, rng, fam='C07'):
